@@ -39,6 +39,8 @@ var Runners = map[string]func(tier string) int{
 	"C01": func(t string) int { return RunUnpackSafety("C01", t) },
 	"C04": func(t string) int { return RunUnpackSafety("C04", t) },
 	"C15": RunC15,
+	"C03": RunC03,
+	"C19": RunC19,
 	"C02": func(t string) int { return RunPackTrees("C02", t) },
 	"C20": func(t string) int { return RunPackTrees("C20", t) },
 	"C05": func(t string) int { return RunPackTrees("C05", t) },
